@@ -239,6 +239,23 @@ theorem eraseAll_cls (ws : List Slot) (s : St) : (eraseAll ws s).r.fl.cls = s.r.
     simp only [eraseAll, List.foldl_cons] at ih ⊢
     rw [ih]; cases x <;> rfl
 
+/-- what a builder carries besides its slots: class, dialect, AS-keyword and wrapping options, its own alias -/
+def config (s : St) : QClass × Option Dialect × Bool × Bool × Option Str :=
+  (s.r.fl.cls, s.r.fl.dialect, s.r.fl.asKeyword, s.r.fl.wrapSetOps, s.r.fl.alias)
+
+theorem eraseAll_config (ws : List Slot) (s : St) : config (eraseAll ws s) = config s := by
+  induction ws generalizing s with
+  | nil => rfl
+  | cons x xs ih =>
+    simp only [eraseAll, List.foldl_cons] at ih ⊢
+    rw [ih]; cases x <;> rfl
+
+/-- **no builder call changes the rendering configuration of the statement** (class, dialect, AS keyword, operand wrapping,
+alias): they are not slots, so the frame theorem leaves them alone — the dialect context of C07 is fixed when the builder is made -/
+theorem step_config (s s' : St) (c : Call) (h : step s c = .ok s') : config s' = config s := by
+  have := congrArg config (step_frame s s' c h)
+  simpa only [eraseAll_config] using this
+
 theorem step_cls (s s' : St) (c : Call) (h : step s c = .ok s') : s'.r.fl.cls = s.r.fl.cls := by
   have := congrArg (fun x => x.r.fl.cls) (step_frame s s' c h)
   simpa only [eraseAll_cls] using this
@@ -259,6 +276,18 @@ theorem run_frame (cs : List Call) : ∀ (s s' : St), run s cs = .ok s' →
       rw [step_cls s s1 c h1] at h2
       simp only [List.flatMap_cons]
       exact (h2.prepend _).trans ((step_frame s s1 c h1).widen _)
+
+theorem run_config (cs : List Call) : ∀ (s s' : St), run s cs = .ok s' → config s' = config s := by
+  induction cs with
+  | nil => intro s s' h; cases ok_inj h; rfl
+  | cons c cs ih =>
+    intro s s' h
+    unfold run at h
+    cases h1 : step s c with
+    | error e => simp [h1, bind, Except.bind] at h
+    | ok s1 =>
+      simp only [h1, bind, Except.bind] at h
+      rw [ih s1 s' h, step_config s s1 c h1]
 
 /-! reading a slot through an erasure that does not name it -/
 
